@@ -978,6 +978,12 @@ def setup():
         st = srctie.run(R.REPO, R.ROOT)
         notp = [f for f, i in st.get("functions", {}).items() if i.get("status") != "proved"]
         log("source tie: translator built=%s, %d functions, not proved: %s" % (st.get("translator_built"), len(st.get("functions", {})), notp))
+        import cfgtie
+        ct = cfgtie.run(R.REPO, R.ROOT)
+        p_, t_, rest_ = cfgtie.summary(ct)
+        R.lake_build(["UnicLocale.SrcTie.TransferCfg", "UnicLocale.SrcTie.Transfer", "UnicLocale.SrcTie.TransferOps", "UnicLocale.SrcTie.TransferLikely",
+                      "UnicLocale.SrcTie.TransferParse"])
+        log("configuration tie: %d of %d definitions proved equal across the feature sets; not proved: %s" % (p_, t_, [(a, b) for a, b, _, _ in rest_]))
     log("setup done in %.0fs" % (time.time() - t0))
     return 0
 
@@ -1200,6 +1206,39 @@ def check(pid, tier, seed):
         if changed:
             configs = cfg.thorough_configs
             log("  cfg(feature) extent differs from the modelled one: comparing all %d feature builds" % len(configs))
+        # configuration tie: every source-tied function translated once per feature set of the implementation crates and
+        # proved equal to the default translation (checklib/cfgtie.py; UL.CfgTie.<cfg>.<f>_eq, SrcTie/TransferCfg.lean).
+        # Like the source tie it is not an alarm by itself when it is lost: the property is then decided by all eight
+        # feature builds (a rewrite that no property speaks about can break an equality).
+        import cfgtie
+        with R.Lock():
+            ct = cfgtie.run(R.REPO, R.ROOT)
+            ct_proved, ct_total, ct_rest = cfgtie.summary(ct)
+            ct_transfer = None
+            if ct.get("translator_built") and ct_total and ct_proved == ct_total:
+                ok_tc, _ = R.lake_build(["UnicLocale.SrcTie.TransferCfg"])
+                ct_transfer = ("UL.SrcTie.TransferCfg.* built (parsers, printers, canonicalize, matches, == &str, subtag constructors, mutators: one "
+                               "function in all feature sets; character_direction differs between builds only as documented)"
+                               if ok_tc else "UL.SrcTie.TransferCfg does not build")
+        config_tie = {"translator_built": ct.get("translator_built"), "proved": ct_proved, "of": ct_total,
+                      "configs": {ns: {"features": e.get("features"), "error": e.get("error"), "model_theorems": e.get("model_theorems"),
+                                       "absent": sorted(n for n, f in e.get("functions", {}).items() if f["status"] == "absent"),
+                                       "proved": sum(1 for f in e.get("functions", {}).values() if f["status"] == "proved"),
+                                       "types_same_as_default": e.get("types_same_as_default"),
+                                       "impls_same_as_default": e.get("impls_same_as_default")}
+                                  for ns, e in ct.get("configs", {}).items()},
+                      "not_proved": [{"config": a, "function": b, "status": c, "reason": (d or "")[:300]} for a, b, c, d in ct_rest],
+                      "transfer_theorems": ct_transfer,
+                      "rule": "UL.CfgTie.<config>.<f>_eq : @UL.Src<config>.<f> = @UL.Src.<f> for every translated definition (targets and their loops); "
+                              "absent = the item exists only with a feature (extra API)"}
+        cfg_extent["config_tie"] = config_tie
+        if ct_total == 0 or ct_proved != ct_total:
+            configs = cfg.thorough_configs
+            for a, b, c, d in ct_rest[:8]:
+                log("  configuration tie: %s / %s is %s (%s)" % (a, b, c, (d or "")[:160]))
+            log("  configuration tie incomplete (%d of %d): comparing all %d feature builds" % (ct_proved, ct_total, len(configs)))
+        else:
+            log("  configuration tie: %d of %d definitions proved equal across the feature sets" % (ct_proved, ct_total))
     harnesses = {}
     macros_broken = False
     with R.Lock():
